@@ -49,9 +49,32 @@ def factoryLine (t : Tok) (cnt : Nat) : String := Id.run do
   let l1 := match last with | some x => fmt x | none => "-"
   s!"n={n} first={f1} last={l1} sum={sum} distinct={increasing} same={same} panic={panicked}"
 
+/-- A composite source of `n` leaves in a loop: every (re)registration hands the leaves, in order, the tokens of a
+    fresh factory for the source's registration token — so leaf `j` sits in the poller under sub-id `j`; a disabled
+    source has no leaf registered.  (`update`, a `Reregister` post action and `enable` all re-run the factory.) -/
+def compositeLine (n : Nat) (ops : List String) : String :=
+  let reg : Option String :=
+    match Factory.take? bS n (Factory.new ⟨0, 0, 0⟩) with
+    | some (toks, _) => some (",".intercalate (toks.map fun t => toString t.sub))
+    | none => none
+  let unreg := ",".intercalate (List.replicate n "-")
+  match reg with
+  | none => "panic"
+  | some r =>
+    let (stages, _) := ops.foldl (fun (acc : List String × Bool) op =>
+      let (out, on) := acc
+      match op with
+      | "disable" => (out ++ [unreg], false)
+      | "enable" => (out ++ [r], true)
+      | "update" | "rereg" => (out ++ [if on then r else unreg], on)
+      | _ => (out ++ [if on then r else unreg], on)) ([r], true)
+    s!"{";".intercalate stages} own=true ok=true"
+
 def step (line : String) : Option String :=
   match words line with
   | [] => none
+  | "composite" :: leaves :: rest =>
+    some (compositeLine leaves.length ((rest.headD "").splitOn "," |>.filter (· != "")))
   | op :: rest =>
     if op.startsWith "#" then none else
     some <| match op, nums rest with
